@@ -328,6 +328,7 @@ def shape_table(root: str) -> dict:
     """{relpath: {"module_names": [...], "functions": {path: [fingerprints]}, "nested": {path: [nested def names]}}} (tools/gen_local_names.py)."""
     from . import canon_rw as rw
     table = {}
+    pure_ctors = set()
     pkg = os.path.join(root, "apischema")
     for dp, dn, fns in os.walk(pkg):
         dn[:] = sorted(d for d in dn if d != "__pycache__")
@@ -352,6 +353,20 @@ def shape_table(root: str) -> dict:
                 if nd:
                     nested[q] = [n.name for n in nd]
             table[rel] = {"module_names": names, "functions": funcs, "nested": nested, "params": params, "sha": sha}
+            for c in ast.walk(tree):
+                if isinstance(c, ast.ClassDef):
+                    meths = {m.name: m for m in c.body if isinstance(m, ast.FunctionDef)}
+                    if "__post_init__" in meths or "__new__" in meths or c.keywords:
+                        continue
+                    is_dc = any("dataclass" in ast.unparse(d) for d in c.decorator_list)
+                    init = meths.get("__init__")
+                    trivial = init is not None and all(
+                        isinstance(st, ast.Assign) and len(st.targets) == 1 and isinstance(st.targets[0], ast.Attribute) and isinstance(st.targets[0].value, ast.Name)
+                        and st.targets[0].value.id == "self" and isinstance(st.value, ast.Name) for st in init.body)
+                    plain_bases = all(isinstance(b, ast.Name) and b.id in ("object", "DeserializationMethod", "SerializationMethod", "Constraint") for b in c.bases)
+                    if ((is_dc and init is None) or trivial) and plain_bases:
+                        pure_ctors.add(c.name)
+    table["<global>"] = {"pure_ctors": sorted(pure_ctors)}
     return table
 
 
@@ -400,8 +415,43 @@ def canonicalise(tree: ast.Module, relpath: str, src: Optional[str] = None) -> a
             # the module is the reference itself, character for character: nothing to restore
             ast.fix_missing_locations(tree)
             return tree
-    directed_rewrites(tree, relpath)
+    # a module that differs from the reference: the search is cached on disk (pure acceleration; key = source + tables + code)
+    cache_path = None
+    if src is not None and not os.environ.get("CANON_NO_CACHE"):
+        import hashlib, pickle, tempfile
+        here = os.path.dirname(os.path.abspath(__file__))
+        h = hashlib.sha256(src.encode())
+        for f in ("canon.py", "canon_rw.py", "ref_shapes.json", "local_names.json"):
+            try:
+                h.update(open(os.path.join(here, f), "rb").read())
+            except OSError:
+                pass
+        h.update(relpath.encode())
+        cache_dir = os.path.join(tempfile.gettempdir(), "verif_canon_cache")
+        cache_path = os.path.join(cache_dir, h.hexdigest()[:32] + ".pickle")
+        try:
+            with open(cache_path, "rb") as fh:
+                cached = pickle.load(fh)
+            tree.body[:] = cached.body
+            return tree
+        except Exception:
+            pass
     restore_local_names(tree, relpath)
-    inline_fresh_temporaries(tree, relpath)
+    for _ in range(2):       # a restored name can make a spelling match, a restored spelling can make a defining site match
+        before = ast.dump(tree)
+        directed_rewrites(tree, relpath)
+        restore_local_names(tree, relpath)
+        inline_fresh_temporaries(tree, relpath)
+        if ast.dump(tree) == before:
+            break
     ast.fix_missing_locations(tree)
+    if cache_path is not None:
+        try:
+            os.makedirs(os.path.dirname(cache_path), exist_ok=True)
+            tmp = cache_path + f".{os.getpid()}"
+            with open(tmp, "wb") as fh:
+                pickle.dump(tree, fh)
+            os.replace(tmp, cache_path)
+        except Exception:
+            pass
     return tree
